@@ -57,6 +57,11 @@ type Contract struct {
 	NoPanic  bool
 	Opts     map[string]string
 	Cases    []*Clause
+	TypeFact bool     // contract about a struct type, decided from go/types
+	Public   []string // fields that must be exactly the ,public ones
+	First    string
+	FieldTypes map[string]string
+	Unreach  []string // function keys that must not be reachable through repository code
 }
 
 type ContractSet struct {
@@ -71,7 +76,7 @@ func NewContractSet() *ContractSet {
 
 var clauseKW = map[string]bool{"func": true, "extern": true, "requires": true, "ensures": true, "invariant": true, "decreases": true,
 	"modifies": true, "loop": true, "returns": true, "let": true, "lemmas": true, "reveal": true, "field": true, "modes": true,
-	"property": true, "assert": true, "pure": true, "trusted": true, "package": true, "unroll": true, "nopanic": true, "opt": true, "havoc": true, "end": true, "shape": true, "cases": true, "ghost": true}
+	"property": true, "assert": true, "pure": true, "trusted": true, "package": true, "unroll": true, "nopanic": true, "opt": true, "havoc": true, "end": true, "shape": true, "cases": true, "ghost": true, "typefact": true, "public": true, "first": true, "unreachable": true, "fieldtype": true}
 
 var kwRe = regexp.MustCompile(`^([a-z]+)(\[[AH]\])?(@\S+)?(\s|$)`)
 
@@ -146,6 +151,15 @@ func (cs *ContractSet) ParseContractLines(lines []rawLine, defPkg string, file s
 			}
 			li := strings.LastIndex(name, ".")
 			ghostDecls[name[:li]] = append(ghostDecls[name[:li]], ghostDecl{name[li+1:], fs[1]})
+			continue
+		case "typefact":
+			c := &Contract{Loops: map[int]*LoopSpec{}, File: file, Line: s.line, Pkg: defPkg, Opts: map[string]string{}, TypeFact: true, FieldTypes: map[string]string{}}
+			c.Name = strings.TrimSpace(s.rest)
+			c.Key = defPkg + ".type:" + c.Name
+			cs.ByKey[c.Key] = c
+			cs.Keys = append(cs.Keys, c.Key)
+			cur = c
+			curLoop = nil
 			continue
 		case "func", "extern":
 			c := &Contract{Loops: map[int]*LoopSpec{}, File: file, Line: s.line, Extern: s.kw == "extern", Pkg: defPkg, Opts: map[string]string{}}
@@ -251,6 +265,17 @@ func (cs *ContractSet) ParseContractLines(lines []rawLine, defPkg string, file s
 				}
 				cur.Cases = append(cur.Cases, &Clause{Kind: "case", Expr: e, Text: strings.TrimSpace(part), Line: s.line})
 			}
+		case "public":
+			cur.Public = append(cur.Public, strings.Fields(strings.ReplaceAll(s.rest, ",", " "))...)
+		case "first":
+			cur.First = strings.TrimSpace(s.rest)
+		case "fieldtype":
+			fs := strings.Fields(s.rest)
+			if len(fs) == 2 {
+				cur.FieldTypes[fs[0]] = fs[1]
+			}
+		case "unreachable":
+			cur.Unreach = append(cur.Unreach, strings.Fields(strings.ReplaceAll(s.rest, ",", " "))...)
 		case "returns":
 			cur.Returns = s.rest
 		case "let":
